@@ -944,7 +944,11 @@ def num_close(x, y, attr, case):
         return True
     if math.isnan(a) or math.isnan(b) or math.isinf(a) or math.isinf(b):
         return False
-    if attr.startswith(DOUB_ATTRS):
+    if attr.endswith(".scalingFactor"):
+        # an ICD's flow scaling factor is recomputed from the lengths of the well's connections whenever the schedule
+        # touches the well again, and those come back from SCON (REAL): single precision, a few operations
+        rel = 8 * 2.0 ** -23
+    elif attr.startswith(DOUB_ATTRS):
         rel = 8 * 2.0 ** -52 + (5.0e-14 if case["fmt"] else 0.0)
     else:
         # REAL item: deck-unit value rounded to float (2^-24), 8 digits + another float rounding when formatted,
@@ -993,6 +997,17 @@ def misassigned_uda_wells(a, b):
                     out.add(w2)
                     out.update(w1 for w1, k1, v1 in lost if k1 == k and v1 == v)
     return out
+
+
+def uda_producer_turned_injector(case, wn):
+    uda = False
+    for b in case.get("blocks", []):
+        for k in b["kws"]:
+            if k.startswith("WCONPROD\n '%s' " % wn) and re.search(r"'[FW]U_\w+'", k):
+                uda = True
+            if k.startswith(("WCONINJE\n '%s' " % wn, "WCONINJH\n '%s' " % wn)) and uda:
+                return True
+    return False
 
 
 def wlist_reentry(case):
@@ -1105,6 +1120,14 @@ def key_B(attr, x, y, case, state=None, path="", other=None):
         tgt = state["groups"].get(gname, {}).get("prod", {}).get(mg.group(2) + "_target")
         if tgt not in (None, "<numeric>") and other["groups"].get(gname, {}).get("prod", {}).get(mg.group(2) + "_target") == "<numeric>":
             return "B:group.uda-lost"
+    if attr.startswith("well.") and state is not None and other is not None and path.count("/") >= 2:
+        wn = path.strip("/").split("/")[1]
+        wa, wb = state.get("wells", {}).get(wn, {}), other.get("wells", {}).get(wn, {})
+        if wa.get("injector") and not wa.get("producer") and wb.get("producer") and uda_producer_turned_injector(case, wn):
+            # a producer with a UDQ-valued limit (WCONPROD ... 'FU_A') that WCONINJE turned into an injector: the
+            # (well, control) record stays in UDQActive, goes into IUAD/IUAP, and the restart re-applies it - the
+            # well comes back as a producer
+            return "B:well.uda-survives-conversion-to-injector"
     if attr.startswith("wlist_members"):
         # membership proper.  Recorded only for the one shape that fails on the unchanged tree: a well that re-enters a
         # list it had left before (its stale entry makes WListManager's per-well list count go wrong, and a later DEL
@@ -1116,6 +1139,16 @@ def key_B(attr, x, y, case, state=None, path="", other=None):
         return "B:well.seg.inlets"
     if attr == "network.node.target_group":
         return "B:network.node.as_choke"
+    def _isolated(nw, name):
+        nodes = nw.get("nodes", {})
+        me = nodes.get(name) or {}
+        return not me.get("uptree") and not any((v.get("uptree") or {}).get("node") == name for v in nodes.values() if isinstance(v, dict))
+    if attr.startswith("network") and state is not None and (
+            not state.get("network", {}).get("active", True) or
+            (path.count("/") >= 3 and _isolated(state.get("network", {}), path.strip("/").split("/")[2]))):
+        # nodes of a network that has no branches (any more), or a node left without any branch: the restart file carries
+        # network arrays only for an active network (branches AND nodes) and only the nodes its branches name
+        return "B:network.nodes-of-inactive-network"
     if attr.startswith("group.injControls.") and attr.endswith("voidage_group"):
         return "B:group.inj.voidage_group"
     return "B:" + attr
